@@ -74,7 +74,7 @@ def build(sd, idx):
     qs = float(si.QUANTITY[qunit])
     system = st.RDSystem(net, space, state=st.UnitArray([x / qs for x in state], qunit))
     sseed = r.choice([0, 0, 1, 2 ** 31 - 1, 2 ** 32 - 1]) if r.random() < 0.2 else r.randrange(2 ** 31)   # 0 is a valid explicit seed
-    script = st.RDScript(system, t_sample=[0, 1], time_step=0.1, sampling_policy="on_t_sample", rng_seed=sseed,
+    script = st.RDScript(system, t_sample=[0, 1], time_step=0.1, sampling_policy="on_t_sample", rng_seed=simhelp.seed_form(r, sseed),
                          init_state_processing=mode)
     # the real-valued amounts as the engine receives them (molecules), cross-checked against the description
     recv = [float(x) for x in system.state.convert("molecule").value]
